@@ -26,6 +26,16 @@ def jobs_for(tier, seed):
     jobs = []
     pts += [p for p in universe.option_points(tier, seed)
             if p[0].split(",opt.")[1].split("=")[0] not in universe.TOKEN_CHANGING]
+    # every (token-preserving) option value x instances of every template family
+    for opt, vals in universe.OPTION_SWEEP:
+        if opt in universe.TOKEN_CHANGING:
+            continue
+        for val in vals:
+            for (name, text) in universe.family_instances(f"{opt}={val}", universe.boundary_sources(),
+                                                           per_family=1 if tier == "quick" else 4):
+                se = universe.STYLE_EDITIONS[core.fnv(f"{opt}{name}".encode()) % 3]
+                pts.append((f"{name}@w=100,se={se},opt.{opt}={val}", name, text,
+                            {"max_width": 100, "style_edition": se, opt: val}))
     for k, (pid, name, text, opts) in enumerate(pts):
         vk = pid.rsplit(",", 1)[-1]
         if vk in SKIP_VECTORS:
